@@ -276,3 +276,6 @@ pub use assets_manager_macros::Asset;
 
 #[cfg(test)]
 mod tests;
+
+#[cfg(kani)]
+include!(concat!(env!("ASSETS_MANAGER_VERIF"), "/incrate/lib.rs"));
